@@ -698,7 +698,7 @@ def term(x):
 
 
 def is_sym(x):
-    return isinstance(x, (SV, SB))
+    return isinstance(x, (SV, SB)) or getattr(x, '_symx_dual', False)
 
 
 class SB:
@@ -784,6 +784,11 @@ def cases_of(x):
 def ite(c, a, b):
     if not isinstance(c, SB):
         return a if c else b
+    if getattr(a, '_symx_dual', False) or getattr(b, '_symx_dual', False):
+        from .dual import Dual
+        n = len(a.d) if getattr(a, '_symx_dual', False) else len(b.d)
+        a = Dual.lift(a, n); b = Dual.lift(b, n)
+        return Dual(ite(c, a.v, b.v), [ite(c, x, y) for x, y in zip(a.d, b.d)])
     if not is_sym(a) and not is_sym(b):
         try:
             if a == b: return a
@@ -837,7 +842,8 @@ def liftb(a, b, f):
 
 
 def _isnd(o):
-    return isinstance(o, _np.ndarray)
+    """operands that SV arithmetic leaves to the other side (arrays broadcast; dual numbers carry derivatives)"""
+    return isinstance(o, _np.ndarray) or getattr(o, '_symx_dual', False)
 
 
 class SV:
@@ -1062,7 +1068,11 @@ def _div(a, b):
             raise ZeroDivisionError('symbolic division by zero')
         if not is_sym(a) and _iszero(a): return 0.0
         return lift2(a, b, lambda x, y: _real(x) / _real(y))
-    if b == 0: raise ZeroDivisionError('division by zero')
+    if b == 0:
+        if ctx().numpy_division:
+            ctx().aborted = 'division by zero (numpy: inf/nan)'
+            raise Abort(ctx().aborted)
+        raise ZeroDivisionError('division by zero')
     if b == 1: return a if not a.is_int else SV(z3.ToReal(a.t))
     return lift2(a, b, lambda x, y: _real(x) / _real(y))
 
@@ -1114,6 +1124,11 @@ def opaque(fn, s):
                 c.axioms.append(z3.Implies(x0z - st >= z3.RealVal('1/5'), v - v0 >= z3.RealVal('1/5')))
         if fn == 'exp':
             c.axioms.append(v > 0)
+        if fn == 'atan':
+            P2 = _const(math.pi) / 2
+            c.axioms.append(z3.And(v > -P2, v < P2))
+            c.axioms.append(z3.Implies(st > 0, v > 0)); c.axioms.append(z3.Implies(st < 0, v < 0)); c.axioms.append(z3.Implies(st == 0, v == 0))
+            c.ranges[v.decl().name()] = (Fraction(-158, 100), Fraction(158, 100))
         c.opaque_args[v.decl().name()] = (fn, s)
     return SV(c.opaque[key])
 
@@ -1245,7 +1260,7 @@ class SA(_np.ndarray):
                 return _finish_bool(r)
             if ufunc in _UF_METH:
                 m = _UF_METH[ufunc]
-                r = _np.frompyfunc(lambda x: getattr(x, m)() if isinstance(x, SV) else float(ufunc(float(x))), 1, 1)(*ins)
+                r = _np.frompyfunc(lambda x: getattr(x, m)() if (isinstance(x, SV) or getattr(x, '_symx_dual', False)) else float(ufunc(float(x))), 1, 1)(*ins)
                 return _wrap(r)
             if ufunc is _np.absolute:
                 return _wrap(_np.frompyfunc(abs, 1, 1)(*ins))
@@ -1367,8 +1382,9 @@ def _masked_store(arr, mask, val):
         if isinstance(c, SB) and getattr(cx, 'resolve_masks', True):
             # cheapest first: is the overwrite a no-op whenever the mask holds? (the near-zero thresholds under
             # a dead-zone assumption: mask => value == 0)
-            if cx.check(c.t, term(v[k]) != term(base[k]), timeout_ms=min(cx.timeout_ms, RESOLVE_TIMEOUT_MS)) == z3.unsat:
-                continue
+            if not (getattr(v[k], '_symx_dual', False) or getattr(base[k], '_symx_dual', False)):
+                if cx.check(c.t, term(v[k]) != term(base[k]), timeout_ms=min(cx.timeout_ms, RESOLVE_TIMEOUT_MS)) == z3.unsat:
+                    continue
             c = _resolve(c)
         base[k] = ite(c if isinstance(c, SB) else bool(c), v[k], base[k])
 
